@@ -260,6 +260,123 @@ func c11Check(c c11Case) string {
 	return c11Splits(c)
 }
 
+// c11Repush: file f0 changes while it is being chunked - after k chunks of the old version were
+// popped the scan pushes the new version (other size, hash, time) under the same name. The chunks
+// emitted for the NEW version must tile exactly [0, new size): nothing of the old version's
+// progress may carry over.
+type c11RepushCase struct {
+	P     int64 `json:"payload"`
+	C     int64 `json:"chunk"`
+	Old   int64 `json:"old_size"`
+	New   int64 `json:"new_size"`
+	After int   `json:"after_pops"`
+	Other int64 `json:"other_file_size"` // 0 = none
+}
+
+func c11RepushCheck(c c11RepushCase) (msg string, applicable bool) {
+	chunk := c.C
+	if chunk == 0 {
+		chunk = c.P
+	}
+	tags := []*queue.Tag{{Name: "", Order: sts.OrderFIFO, ChunkSize: chunk}}
+	q := queue.NewTagged(tags, func(string) string { return "" }, func(string) string { return "g" })
+	t0 := time.Date(1999, 1, 1, 0, 0, 0, 0, time.UTC)
+	files := []sts.Hashed{&vFile{name: "f0", size: c.Old, time: t0, hash: "h-old"}}
+	if c.Other > 0 {
+		files = append(files, &vFile{name: "f1", size: c.Other, time: t0.Add(time.Second), hash: "h1"})
+	}
+	q.Push(files)
+	var newChunks, f1Chunks []c11Piece
+	pops := 0
+	pushed := false
+	for n := 0; n < 10000; n++ {
+		if pops == c.After && !pushed {
+			q.Push([]sts.Hashed{&vFile{name: "f0", size: c.New, time: t0.Add(time.Minute), hash: "h-new"}})
+			pushed = true
+		}
+		s := q.Pop()
+		if s == nil {
+			break
+		}
+		pops++
+		b, l := s.GetSlice()
+		switch {
+		case s.GetName() == "f1":
+			f1Chunks = append(f1Chunks, c11Piece{"f1", b, b + l})
+		case s.GetHash() == "h-new":
+			newChunks = append(newChunks, c11Piece{"f0", b, b + l})
+		case pushed:
+			return fmt.Sprintf("after the new version of f0 was pushed a chunk [%d,%d) of the OLD version (hash %s) was emitted", b, b+l, s.GetHash()), true
+		}
+	}
+	if !pushed {
+		return "", false // the old version had fewer chunks than After
+	}
+	if m := c11Tiles(newChunks, [][]int64{{0, c.New}}); m != "" {
+		return fmt.Sprintf("chunks of the new version of f0 (%d bytes, pushed after %d chunk(s) of the %d-byte old version were emitted): %s; emitted %v", c.New, c.After, c.Old, m, newChunks), true
+	}
+	if c.Other > 0 {
+		if m := c11Tiles(f1Chunks, [][]int64{{0, c.Other}}); m != "" {
+			return "chunks of f1: " + m, true
+		}
+	}
+	return "", true
+}
+
+func TestC11Repush(t *testing.T) {
+	rep := vh.NewReport("C11", "a file re-pushed with new content while it is being chunked")
+	defer rep.Write()
+	var rc c11RepushCase
+	if vh.ReplaySpec(&rc) {
+		synctest.Test(t, func(t *testing.T) {
+			if msg, _ := c11RepushCheck(rc); msg != "" {
+				rep.Violate("", msg, rc)
+			}
+		})
+		rep.Executions = 1
+		return
+	}
+	k := 0
+	for _, P := range []int64{10, 16} {
+		for _, C := range []int64{0, 1, 3, P - 1, P, P + 1} {
+			max := 2*P + 2
+			if vh.Thorough() {
+				max = 3*P + 3
+			}
+			for old := int64(1); old <= max; old++ {
+				for nw := int64(1); nw <= max; nw++ {
+					for _, other := range []int64{0, 5} {
+						for after := 0; after <= int(max); after++ {
+							k++
+							if !vh.Mine(k) {
+								continue
+							}
+							c := c11RepushCase{P: P, C: C, Old: old, New: nw, After: after, Other: other}
+							var msg string
+							var ok bool
+							synctest.Test(t, func(t *testing.T) { msg, ok = c11RepushCheck(c) })
+							if !ok {
+								break // no more pops in this history: larger values of After neither
+							}
+							rep.Executions++
+							rep.States++
+							rep.Transitions++
+							if after > 0 {
+								rep.Nontrivial++
+							}
+							rep.Outcome(fmt.Sprintf("P%d C%d", P, C))
+							if msg != "" {
+								rep.Violate("", msg, c)
+							}
+						}
+					}
+				}
+			}
+		}
+	}
+	rep.Bound = "payload sizes {10,16}; chunk sizes {payload,1,3,P-1,P,P+1}; old and new size of the file 1..2P+2 each (thorough 3P+3); new version pushed after every number of emitted chunks (0..all); with and without a second file behind it"
+}
+
 func TestC11(t *testing.T) {
 	rep := vh.NewReport("C11", "queue+binner tiling")
 	defer rep.Write()
